@@ -97,48 +97,16 @@ fn check_best_component(prev: &Option<TInd>, pop: &[TInd]) -> Option<(String, St
     }
 }
 
-fn check_archive(k: usize, pops: &[Vec<TInd>], target: &[TInd]) -> Option<(String, String)> {
-    let mut st = state_with::<TagP>(vec![vec![]]);
-    let upd = ElitistArchiveUpdate::new::<TagP>(k);
-    let ctx = |w: String| format!("elitist archive of capacity {} shown populations {:?}: {}", k, pops, w);
-    if let Err(e) = upd.init(&TagP, &mut st) {
-        return Some(("C07 ElitistArchive init".into(), ctx(format!("{:#}", e))));
-    }
-    let mut shown: Vec<TInd> = vec![];
-    for (step, p) in pops.iter().enumerate() {
-        *st.populations_mut().current_mut() = tpop(p);
-        match catch(|| upd.execute(&TagP, &mut st)) {
-            Err(pn) => return Some(("C07 ElitistArchive update-panic".into(), ctx(pn))),
-            Ok(Err(e)) => return Some(("C07 ElitistArchive update-error".into(), ctx(format!("{:#}", e)))),
-            _ => {}
-        }
-        shown.extend(p.iter().cloned());
-        let arch: Vec<TInd> = st.borrow::<ElitistArchive<TagP>>().elitists().iter().map(|i| (*i.solution(), i.objective().value())).collect();
-        let mut vals: Vec<f64> = shown.iter().map(|i| i.1).collect();
-        vals.sort_by(|a, b| a.partial_cmp(b).unwrap());
-        vals.truncate(k);
-        let mut avals: Vec<f64> = arch.iter().map(|i| i.1).collect();
-        avals.sort_by(|a, b| a.partial_cmp(b).unwrap());
-        let kc = if k == 0 { "k=0" } else if k >= shown.len() { "k>=shown" } else { "k<shown" };
-        if avals != vals {
-            return Some((format!("C07 ElitistArchive {} not-the-k-best", kc), ctx(format!("after update {} the archive holds {:?}; the {} best objective values shown so far are {:?}", step, arch, k, vals))));
-        }
-        // members are copies of shown individuals, no more often than shown
-        let mut pool = shown.clone();
-        for a in &arch {
-            match pool.iter().position(|x| x == a) {
-                Some(i) => {
-                    pool.remove(i);
-                }
-                None => return Some((format!("C07 ElitistArchive {} foreign-member", kc), ctx(format!("archive member {:?} was not shown (that often)", a)))),
-            }
-        }
-    }
-    // re-insertion
+fn archive_of(st: &mahf::State<TagP>) -> Vec<TInd> {
+    st.borrow::<ElitistArchive<TagP>>().elitists().iter().map(|i| (*i.solution(), i.objective().value())).collect()
+}
+
+/// re-insertion of the archive into `target`; the archive itself is only read
+fn check_reinsert(st: &mut mahf::State<'static, TagP>, target: &[TInd], ctx: &dyn Fn(String) -> String) -> Option<(String, String)> {
     *st.populations_mut().current_mut() = tpop(target);
-    let arch: Vec<TInd> = st.borrow::<ElitistArchive<TagP>>().elitists().iter().map(|i| (*i.solution(), i.objective().value())).collect();
+    let arch = archive_of(st);
     let ins = ElitistArchiveIntoPopulation::new::<TagP>();
-    match catch(|| run_component(ins.as_ref(), &TagP, &mut st)) {
+    match catch(|| run_component(ins.as_ref(), &TagP, st)) {
         Err(p) => return Some(("C07 ElitistArchiveIntoPopulation panic".into(), ctx(p))),
         Ok(Err(e)) => return Some(("C07 ElitistArchiveIntoPopulation error".into(), ctx(format!("{:#}", e)))),
         _ => {}
@@ -160,6 +128,56 @@ fn check_archive(k: usize, pops: &[Vec<TInd>], target: &[TInd]) -> Option<(Strin
     if let Some(m) = arch.iter().find(|a| !after.contains(a)) {
         return Some(("C07 ElitistArchiveIntoPopulation missing".into(), c2(format!("archive member {:?} is not in the population {:?}", m, after))));
     }
+    let arch2 = archive_of(st);
+    if arch2 != arch {
+        return Some(("C07 ElitistArchiveIntoPopulation archive-changed".into(), c2(format!("the archive holds {:?} after the re-insertion", arch2))));
+    }
+    None
+}
+
+/// `each`: re-insert into `target` after every update (the archive must keep remembering), else only at the end
+fn check_archive(k: usize, pops: &[Vec<TInd>], target: &[TInd], each: bool) -> Option<(String, String)> {
+    let mut st = state_with::<TagP>(vec![vec![]]);
+    let upd = ElitistArchiveUpdate::new::<TagP>(k);
+    let ctx = |w: String| format!("elitist archive of capacity {} shown populations {:?}{}: {}", k, pops, if each { " (re-inserted after every update)" } else { "" }, w);
+    if let Err(e) = upd.init(&TagP, &mut st) {
+        return Some(("C07 ElitistArchive init".into(), ctx(format!("{:#}", e))));
+    }
+    let mut shown: Vec<TInd> = vec![];
+    for (step, p) in pops.iter().enumerate() {
+        *st.populations_mut().current_mut() = tpop(p);
+        match catch(|| upd.execute(&TagP, &mut st)) {
+            Err(pn) => return Some(("C07 ElitistArchive update-panic".into(), ctx(pn))),
+            Ok(Err(e)) => return Some(("C07 ElitistArchive update-error".into(), ctx(format!("{:#}", e)))),
+            _ => {}
+        }
+        shown.extend(p.iter().cloned());
+        let arch = archive_of(&st);
+        let mut vals: Vec<f64> = shown.iter().map(|i| i.1).collect();
+        vals.sort_by(|a, b| a.partial_cmp(b).unwrap());
+        vals.truncate(k);
+        let mut avals: Vec<f64> = arch.iter().map(|i| i.1).collect();
+        avals.sort_by(|a, b| a.partial_cmp(b).unwrap());
+        let kc = if k == 0 { "k=0" } else if k >= shown.len() { "k>=shown" } else { "k<shown" };
+        if avals != vals {
+            return Some((format!("C07 ElitistArchive {} not-the-k-best", kc), ctx(format!("after update {} the archive holds {:?}; the {} best objective values shown so far are {:?}", step, arch, k, vals))));
+        }
+        // members are copies of shown individuals, no more often than shown
+        let mut pool = shown.clone();
+        for a in &arch {
+            match pool.iter().position(|x| x == a) {
+                Some(i) => {
+                    pool.remove(i);
+                }
+                None => return Some((format!("C07 ElitistArchive {} foreign-member", kc), ctx(format!("archive member {:?} was not shown (that often)", a)))),
+            }
+        }
+        if each || step + 1 == pops.len() {
+            if let Some(v) = check_reinsert(&mut st, target, &ctx) {
+                return Some(v);
+            }
+        }
+    }
     None
 }
 
@@ -167,7 +185,7 @@ pub fn run_part_a(rep: &mut Report) {
     let thorough = rep.tier == Tier::Thorough;
     rep.alpha("BestIndividual::update over all candidate sequences of length <= 4 (quick) / 5 (thorough) on objectives {0,1,2,+inf} with distinct solutions (ties = different solution, equal objective)");
     rep.alpha("BestIndividualUpdate on every population of size 0..3 over the grid x previous best in {none, 0, 1, 2, +inf}");
-    rep.alpha("ElitistArchiveUpdate over all sequences of <= 2 (quick) / 3 (thorough) populations of size <= 2 x capacity 0..4, then ElitistArchiveIntoPopulation into {empty, first shown population, unrelated population}");
+    rep.alpha("ElitistArchiveUpdate over all sequences of <= 2 (quick) / 3 (thorough) populations of size <= 2 x capacity 0..4, with ElitistArchiveIntoPopulation into {empty, first shown population, unrelated population} after the last or after every update");
     let mut p = Part::new("best.update-sequences");
     let len = if thorough { 5 } else { 4 };
     p.bound("max_sequence_length", len as u64);
@@ -233,8 +251,13 @@ pub fn run_part_a(rep: &mut Report) {
             for k in 0..=4usize {
                 let targets: Vec<Vec<TInd>> = vec![vec![], seq[0].clone(), vec![(500, 1.0)]];
                 for t in &targets {
-                    if let Some((sg, d)) = check_archive(k, seq, t) {
-                        out.push((sg, d, json!({"kind": "archive", "k": k, "pops": seq.iter().map(|p| jv(p)).collect::<Vec<_>>(), "target": jv(t)})));
+                    for each in [false, true] {
+                        if each && seq.len() < 2 {
+                            continue;
+                        }
+                        if let Some((sg, d)) = check_archive(k, seq, t, each) {
+                            out.push((sg, d, json!({"kind": "archive", "k": k, "pops": seq.iter().map(|p| jv(p)).collect::<Vec<_>>(), "target": jv(t), "each": each})));
+                        }
                     }
                 }
             }
@@ -264,7 +287,7 @@ pub fn replay_a(case: &Value) -> Result<Vec<(String, String)>, String> {
         }
         "archive" => {
             let pops: Vec<Vec<TInd>> = case["pops"].as_array().ok_or("no pops")?.iter().map(pj).collect();
-            check_archive(case["k"].as_u64().unwrap_or(0) as usize, &pops, &pj(&case["target"])).into_iter().collect()
+            check_archive(case["k"].as_u64().unwrap_or(0) as usize, &pops, &pj(&case["target"]), case["each"].as_bool().unwrap_or(false)).into_iter().collect()
         }
         k => return Err(format!("unknown kind {}", k)),
     })
